@@ -7,7 +7,10 @@ V = os.path.dirname(os.path.dirname(os.path.abspath(__file__)))
 REFAC = {"R1-reset-fields-at-call-start": ["C02", "C18", "C06", "C17"], "R2-report-request-fields-later": ["C02", "C18", "C06", "C11"],
          "R8-response-reset-fields": ["C02", "C18", "C07"], "R3-version-bytewise-only": ["C01", "C06", "C11", "C20"],
          "R4-token-loop-peek-bump": ["C01", "C06", "C20"], "R5-no-method-fast-paths": ["C01", "C06", "C02"],
-         "R6-swar-uri-bytewise": ["C12", "C13", "C06"], "R7-trim-forward-loop": ["C08", "C14", "C20", "C05"]}
+         "R6-swar-uri-bytewise": ["C12", "C13", "C06"], "R7-trim-forward-loop": ["C08", "C14", "C20", "C05"],
+         "R9-avx2-page-aware-correct": ["C12", "C13", "C01", "C05", "C02", "C06"], "R10-code-peek3-correct": ["C07", "C11", "C01", "C02"],
+         "R11-reason-scratch-cursor": ["C20", "C01", "C07", "C04"], "R12-swar-value-two-blocks": ["C12", "C08", "C13", "C20"],
+         "R13-capacity-check-before-store": ["C17", "C10", "C16"], "R14-skip-empty-lines-next": ["C01", "C06", "C20", "C03"]}
 
 
 def run(patch, prop):
